@@ -17,7 +17,7 @@
 (* (int<->float, f32<->f64) and add/sub/mul/div/mod/sqrt/madd on operands that are small integers (exact), rcp of powers  *)
 (* of two.  NOT specified (DC): arithmetic on operands outside that domain (results depend on rounding of inexact          *)
 (* intermediate values), in particular the difference between fused and unfused multiply-add.                            *)
-EXTENDS UniFloat
+EXTENDS UniFloat, FiniteSets
 
 (* ---------------------------------------------------------------------------------------------------------------- *)
 (* helpers                                                                                                          *)
@@ -1783,6 +1783,21 @@ ConstOk(o) ==
          [] o.op = "f64_round_magic" -> o.out = Repeat(BShl(BOfNat(1023 + 52, 8), 52), n)
          [] OTHER -> FALSE
 
+(* OpArray / VecArray (ujitbase.h): "Operand array ... Can hold up to `kMaxSize` registers".  An array built from the     *)
+(* operands 1..n holds exactly these n operands in order; the selectors pick (indices from 0):                            *)
+(*   lo / half : the first ceil(n/2)   hi : the rest   even : 0, 2, 4, ..   odd : 1, 3, ..   every_nth(k) : 0, k, 2k, ..   *)
+(*   even_odd(from): "either even (from == 0) or odd (from == 1) elements"                                                *)
+SeqOfIdx(S)      == [j \in 1..Cardinality(S) |-> CHOOSE x \in S : Cardinality({y \in S : y < x}) = j - 1]
+OpArrSel(op, n, arg) ==
+  LET all == 1..n IN
+  CASE op \in {"ctor", "init"} -> [j \in 1..n |-> j]
+    [] op \in {"lo", "half"}   -> SeqOfIdx({x \in all : x <= (n + 1) \div 2})
+    [] op = "hi"               -> SeqOfIdx({x \in all : x > (n + 1) \div 2})
+    [] op = "even"             -> SeqOfIdx({x \in all : x % 2 = 1})
+    [] op = "odd"              -> SeqOfIdx({x \in all : x % 2 = 0})
+    [] op = "even_odd"         -> SeqOfIdx({x \in all : x % 2 = 1 - arg})
+    [] op = "every_nth"        -> SeqOfIdx({x \in all : (x - 1) % arg = 0})
+
 ObsVerdict(o) ==
   IF o.t = "levels" THEN ""
   ELSE IF o.t = "fail" THEN "assemble"                      \* the operation could not be compiled / assembled at this level
@@ -1821,6 +1836,8 @@ ObsVerdict(o) ==
          IN IF Match(o.out, e) THEN "" ELSE "value"
   ELSE IF o.k = "skip" THEN                                 \* a guarded region that was not executed must not have stored anything
          IF \A j \in 1..Len(o.out) : o.out[j] = 205 THEN "" ELSE "memory"
+  ELSE IF o.k = "oparr" THEN
+         IF o.out = OpArrSel(o.op, o.n, o.arg) /\ o.size = Len(o.out) THEN "" ELSE "container"
   ELSE IF o.k = "const" THEN
          IF ConstOk(o) THEN "" ELSE "constant"
   ELSE "harness"
